@@ -196,13 +196,13 @@ package sipsp
 
 //@ func ParseAllContactValues(buf, offs, c) (n, err)
 //@   requires bufOK(buf) && 0 <= offs && offs <= len(buf) && c != nil && contOK(c, offs)
-//@   modifies *c, c.Vals[*]
+//@   modifies c.N, c.MaxExpires, c.MinExpires, c.LastHVal, c.last, c.first, c.Vals[*]
 //@   loop 0 "for"
 //@     invariant offs0 <= offs && offs <= len(buf) && contOK(c, offs)
 //@     invariant c.N >= len(c.Vals) ==> c.last.state != fbFIN
-//@     invariant sameSlice(c.Vals, c_old.Vals)
+//@     split c.N < len(c.Vals)
 //@     decreases len(buf) - offs
 //@   ensures 0 <= n && n <= len(buf)
 //@   ensures err == ErrHdrOk || err == ErrHdrMoreBytes ==> offs <= n
 //@   ensures err == ErrHdrMoreBytes ==> contOK(c, n)
-//@   ensures within(c.LastHVal, len(buf)) && sameSlice(c.Vals, c_old.Vals)
+//@   ensures within(c.LastHVal, len(buf))
